@@ -267,8 +267,14 @@ def binding_checks(p, w, r, rule, which=('binder', 'arrival', 'get', 'cancel')):
         if not disc and not problems:
             r.fail(rule, f'{s.ci.label}._do_reserve_get::binder', 'no granting path found', src(bfi.module), bfi.node.lineno)
         for mode, (kind, e, pa) in disc.items():
-            r.ok(rule, f'{s.ci.label}._do_reserve_get::binder[{mode_name(mode)}]', f'{kind}: binds {A}[{"|RE|" if kind != "suffix" else "−1−|RE|"}]',
-                 src(e.fi.module), e.line)
+            k = f'{s.ci.label}._do_reserve_get::binder[{mode_name(mode)}]'
+            if mode in (True, None) and kind == 'suffix':
+                r.fail(rule, k, f'a FIFO store binds {A}[−1−|RE|], the most recently available item, instead of the first unreserved one',
+                       src(e.fi.module), e.line, pa.describe())
+            elif mode is False and kind != 'suffix':
+                r.fail(rule, k, f'LIFO mode binds {A}[|RE|], the oldest unreserved item, instead of the most recent one', src(e.fi.module), e.line, pa.describe())
+            else:
+                r.ok(rule, k, f'{kind}: binds {A}[{"|RE|" if kind != "suffix" else "−1−|RE|"}]', src(e.fi.module), e.line)
     if not disc:
         return
     # ---- arrivals: appends to A outside the cancellation
